@@ -39,7 +39,7 @@ func init() {
 			}
 			return []runner.Phase{
 				{Name: "iterations", Variant: "race", Cases: n, Run: c15case, CaseTimeout: 120 * time.Second,
-					Required: []string{"multi_page_iterations", "empty_pages", "fetch_errors", "manual_paging", "manual_paging_from_empty_state", "with_speculative_policy", "concurrent_manual_pagers", "consumer_scan", "consumer_scanner", "consumer_mapscan", "consumer_slicemap", "prepared", "unprepared", "skipmeta"}},
+					Required: []string{"multi_page_iterations", "empty_pages", "fetch_errors", "manual_paging", "manual_paging_from_empty_state", "with_speculative_policy", "concurrent_manual_pagers", "manual_paging_without_page_size", "query_object_changed_while_iterating", "consumer_scan", "consumer_scanner", "consumer_mapscan", "consumer_slicemap", "prepared", "unprepared", "skipmeta"}},
 			}
 		},
 	})
@@ -362,6 +362,11 @@ func c15case(c *runner.Ctx, i int) {
 			} else {
 				q.PageState(c15state(set.id, start))
 			}
+			if r.Intn(3) == 0 {
+				// "the rest from here on": a state to resume from, and no page size
+				q.PageSize(0)
+				c.Add("manual_paging_without_page_size", 1)
+			}
 			it := q.Iter()
 			var id int32
 			var pad string
@@ -395,6 +400,13 @@ func c15case(c *runner.Ctx, i int) {
 			continue
 		}
 		it := q.Iter()
+		if r.Intn(4) == 0 {
+			// the caller prepares its Query object for the next execution while this iterator is still being read:
+			// the pages of this iteration are fetched with what the query was when it was executed
+			q.Bind("v-other-partition")
+			q.PageSize(wantPageSize + 7).Consistency(gocql.Three)
+			c.Add("query_object_changed_while_iterating", 1)
+		}
 		got, err := c15consume(r, it, consumer)
 		// expected rows: all pages before the failing one
 		var want []int32
